@@ -114,6 +114,7 @@ def gen_cfg(prop, tier, seed, i):
         cfg['bias'] = pick(r, ['none', 'ackstarve', 'slowfollower'], [1, 3, 2])
     if prop == 'C05':
         cfg['n_ro'] = pick(r, [0, 0, 1, 2])
+        cfg['quiet_minority_down'] = random.Random(h32('qmd', seed, i)).random() < 0.3
         cfg['batch'] = pick(r, [200, 4096, 65536])
         cfg['chunk'] = pick(r, [50, 65536])
         cfg['steps'] = pick(r, [800, 2000, 4000], [2, 3, 2])
@@ -122,11 +123,29 @@ def gen_cfg(prop, tier, seed, i):
         cfg['ro_start'] = r.random() < 0.6
         w['ro'] = pick(r, [0.1, 0.4, 1.0])
         w['partition'] = max(w['partition'], 0.4)
+        r2 = random.Random(h32('c18dyn', seed, i))
+        if r2.random() < 0.15:
+            # observers of a cluster whose member set changes: they learn new voters from the log or from a snapshot
+            cfg['sim'] = 'member'
+            cfg['n'] = pick(r2, [2, 3, 3])
+            cfg['journal'] = 'memory'
+            cfg['compact_min'] = pick(r2, [5, 20])
+            w['compact'] = max(w['compact'], 0.4)
+            w['member'] = pick(r2, [0.5, 1.5])
+            w['operator'] = pick(r2, [0.5, 1.0])
+            cfg['readd_anytime'] = False
+            cfg['ro_stale_list'] = True
+            cfg['queue'] = 100000
+            cfg['batch'] = pick(r2, [200, 4096, 65536])
+            cfg['chunk'] = pick(r2, [50, 65536])
+            cfg.pop('consumers', None)
     if prop == 'C20':
         cfg['fallback'] = pick(r, [0.11, 0.35, 1.0, 3.0, 30.0], [2, 3, 3, 2, 1])
         w['partition'] = max(w['partition'], 0.8)
         w['heal'] = max(w['heal'], 0.4)
         cfg['dt_heavy'] = r.random() < 0.3
+        # read-only nodes attached to some clusters: they answer the leader's heartbeats but are no voters
+        cfg['n_ro'] = pick(random.Random(h32('c20ro', seed, i)), [0, 0, 0, 1, 2])
         r2 = random.Random(h32('c20dyn', seed, i))
         if r2.random() < 0.25:
             # "a majority of the voters it knows": the member set changes at run time (voters added that never answer,
@@ -174,6 +193,12 @@ def gen_cfg(prop, tier, seed, i):
         cfg['raft_min'], cfg['raft_max'] = pick(r, [(0.4, 1.4), (0.31, 0.5), (0.4, 0.45)])
         cfg['batch'] = pick(r, [200, 4096, 65536])
         cfg['ext'] = ['recovery']
+        if random.Random(h32('c07dump', seed, i)).random() < 0.3:
+            # journal and dump file together: whatever a snapshot carries must not override the stored term and vote
+            cfg['journal'] = 'file+dump'
+            cfg['compact_min'] = pick(random.Random(h32('c07dump2', seed, i)), [5, 20])
+            w['compact'] = 0.6
+            cfg['ext'] = ['recovery', 'snapshot']
         r2 = random.Random(h32('c07dyn', seed, i))
         if r2.random() < 0.2:
             # candidates and voters that joined at run time: journaled nodes restart with the member list they were
@@ -197,6 +222,9 @@ def gen_cfg(prop, tier, seed, i):
         cfg['consumers'] = r.sample(['list', 'dict', 'set', 'counter', 'queue', 'pqueue'], r.randint(0, 6))
         if cfg['journal'] == 'file+dump' and r.random() < 0.5:
             cfg['kill_points'] = True
+            # "kills during the dump write": inside a step only the dump / incoming-snapshot primitives are kill points here
+            # (a kill inside the journal trim is the business - and a listed finding - of C06 and C08)
+            cfg['kill_tags'] = ['dump', 'incoming']
             w['kill'] = 0.3
             w['restart'] = 1.0
         cfg['ext'] = ['snapshot']
@@ -216,9 +244,9 @@ def gen_cfg(prop, tier, seed, i):
         cfg['steps'] = pick(r, [800, 2000, 4000], [2, 3, 2])
         if cfg['journal'] in ('file+dump', 'dump'):
             # serializer modes of the statement: inline file write, fork child, user-supplied functions (sync / with checker)
-            cfg['ser_mode'] = pick(random.Random(h32('sermode', prop, seed, i)), ['file', 'fork', 'user', 'user_async'], [2, 3, 2, 2])
+            cfg['ser_mode'] = pick(random.Random(h32('sermode', prop, seed, i)), ['file', 'fork', 'user', 'user_async'], [4, 1, 2, 2])
     if prop == 'C06' and cfg['journal'] == 'file+dump':
-        cfg['ser_mode'] = pick(random.Random(h32('sermode', prop, seed, i)), ['file', 'fork', 'user'], [3, 2, 1])
+        cfg['ser_mode'] = pick(random.Random(h32('sermode', prop, seed, i)), ['file', 'fork', 'user'], [6, 1, 1])
     if prop == 'C10':
         cfg['n'] = pick(r, [1, 2, 3, 4], [1, 2, 3, 2])
         cfg['journal'] = 'memory'
